@@ -713,7 +713,9 @@ def summarize_globals(g):
     for k, v in g.items():
         if k.startswith("__"):
             continue
-        if isinstance(v, (int, float, str, bytes, bool, type(None), complex)):
+        if isinstance(v, int) and not isinstance(v, bool) and v.bit_length() > 4096:
+            out[k] = "int:%x" % v            # hex: no digit limit, still exact
+        elif isinstance(v, (int, float, str, bytes, bool, type(None), complex)):
             out[k] = repr(v)
         elif isinstance(v, (list, tuple, dict, set, frozenset)):
             try:
